@@ -28,11 +28,12 @@ def cloud(draw, dmin=2, dmax=5, nonneg=False, allow_few=False):
         if not nonneg:
             P = P - 1.0
     else:
-        P = np.asarray(draw(gens.array((k, d), lo, 5.0, styles=("raw",))), dtype=float).reshape(k, d)
+        # coordinates are exactly zero or at least 1e-6 of the cloud's size: clouds that are flat "up to 1e-80" are not geometry
+        P = np.asarray(draw(gens.array((k, d), lo, 5.0, styles=("raw",), tiny=1e-5)), dtype=float).reshape(k, d)
     if kind != "few":
         # guarantee a full-dimensional hull: add a simplex around the centroid
         c = P.mean(axis=0)
-        S = np.vstack([np.zeros(d), np.eye(d)]) * draw(st.floats(0.5, 2.0)) + c - 0.3
+        S = np.vstack([np.zeros(d), np.eye(d)]) * draw(st.floats(0.5, 2.0)) + np.round(c, 3) - 0.3
         if nonneg:
             S = np.maximum(S, 0.0)
         P = np.vstack([P, S])
@@ -207,10 +208,10 @@ def body_slice(case):
     check(np.all(np.abs(Q.sum(axis=1) - c) <= 1e-9 * max(1.0, abs(c))), "slice:not-on-plane", f"returned points sum to {Q.sum(axis=1)[:4].tolist()} instead of {c}")
     for q in Q[:6]:
         dd, _ = hull_dist(P, q)
-        check(dd <= 1e-8 * span, "slice:point-outside-hull", f"a returned point is at distance {dd:.3g} from the hull of the cloud")
+        check(dd <= 1e-6 * span, "slice:point-outside-hull", f"a returned point is at distance {dd:.3g} from the hull of the cloud")
     # support functions: hull(Q) == hull(P) cap plane
     d = P.shape[1]
-    dirs = [u for u in np.asarray(case["dirs"], dtype=float) if np.linalg.norm(u) > 1e-3] + list(np.eye(d)) + list(-np.eye(d))
+    dirs = [u / np.linalg.norm(u) for u in np.asarray(case["dirs"], dtype=float) if np.linalg.norm(u) > 1e-3] + list(np.eye(d)) + list(-np.eye(d))
     for u in dirs:
         s_exact = slice_support(P, c, u)
         if s_exact is None:
